@@ -405,6 +405,11 @@ pub fn run(ctx: &Ctx) {
         (0..=maxlen).map(|l| Base { ks: gen::hex32(&BigUint::from(0xabcdef01u64)), ks_rel: ((l % 6) as u8) << 4 | ((l / 6 % 2) as u8) << 7, id_len: 1 + l % 9, id_seed: seed0 ^ l as u64, msg_len: l, msg_seed: seed0.wrapping_mul(31) ^ l as u64, r: Hex(expand_bytes(seed0 ^ 0x7777 ^ l as u64, 32)) }).collect()
     }, check_sign);
 
+    let huge: Vec<usize> = ctx.tier.pick(vec![(1usize << 16) - 1, 1 << 16, (1 << 16) + 3, 100_000], vec![(1usize << 16) - 1, 1 << 16, (1 << 16) + 3, 100_000, (1 << 17) + 40, (1 << 18) + 8, (1 << 20) + 5]);
+    ctx.listed("huge_messages", "messages of 2^16-1, 2^16, 2^16+3, 100000 bytes (thorough: up to 2^20+5) with r injected: exact (h, S) and library verification (size thresholds, chunked or parallel hashing)", move || {
+        huge.iter().map(|l| Base { ks: gen::hex32(&BigUint::from(0xabcdef02u64)), ks_rel: 0, id_len: 5, id_seed: seed0 ^ *l as u64, msg_len: *l, msg_seed: seed0.wrapping_mul(37) ^ *l as u64, r: Hex(expand_bytes(seed0 ^ 0x7778 ^ *l as u64, 32)) }).collect::<Vec<_>>()
+    }, check_sign);
+
     let nrel = ctx.tier.pick(8u64, 60u64);
     ctx.listed("master_key_related_to_h1", "master keys crafted from the identity: ks = H1(ID||01) (the verifier's [h1]P2 + Ppub-s becomes a doubling), ks = 2*H1, ks = H1 - 1: sign with injected r, exact (h,S), verification; and the reference's signature must be accepted", move || {
         let mut v = Vec::new();
